@@ -861,7 +861,7 @@ def schedule(rec, ts, nthreads, per_thread, prob, with_grammar_thread):
 
 def run_shard(rec):
     quick = rec.tier == 'quick'
-    rec.deadline = time.time() + (75 if quick else 700)
+    rec.deadline = time.time() + (300 if quick else 700)
     ts = targets(rec, quick)
     history(rec, ts, 400 if quick else 3000)
     churn(rec, ts)
